@@ -202,7 +202,7 @@ func (t *Transport) RoundTrip(req *http.Request) (*http.Response, error) {
 			return nil, err
 		}
 	}
-	r2 := httptest.NewRequest(req.Method, req.URL.String(), bytes.NewReader(rec.ReqBody))
+	r2 := httptest.NewRequest(req.Method, req.URL.String(), bytes.NewReader(rec.ReqBody)).WithContext(req.Context())
 	for k, v := range req.Header {
 		r2.Header[k] = v
 	}
